@@ -289,6 +289,9 @@ impl Processor {
                                     // and perhaps, eventually, we'll need:
                                     // 3 'Peer deconfigured' when applicable
 
+                                    if let Some(remote_addr) = session.connected_addr() {
+                                        self.status_reporter.disconnect(remote_addr.ip());
+                                    }
                                     let _ = self.tx.send(
                                         Command::Disconnect(
                                             DisconnectReason::Reconfiguration
@@ -303,6 +306,9 @@ impl Processor {
                                     if let Some(new_peer_config) = new_unit.peer_configs.get_exact(&peer_addr_cfg) {
                                         let current = self.unit_cfg.peer_configs.get_exact(&peer_addr_cfg).expect("must exist");
                                         if *new_peer_config != *current {
+                                            if let Some(remote_addr) = session.connected_addr() {
+                                                self.status_reporter.disconnect(remote_addr.ip());
+                                            }
                                             let _ = self.tx.send(
                                                 Command::Disconnect(
                                                     DisconnectReason::Reconfiguration
@@ -489,6 +495,9 @@ impl Processor {
                             let key = (negotiated.remote_addr(), negotiated.remote_asn());
                             if live_sessions.lock().unwrap().contains_key(&key) {
                                 error!("Already got a session for {:?}", key);
+                                if let Some(remote_addr) = session.connected_addr() {
+                                    self.status_reporter.disconnect(remote_addr.ip());
+                                }
                                 let _ = self.tx.send(Command::Disconnect(
                                         DisconnectReason::ConnectionRejected
                                 )).await;
